@@ -224,6 +224,9 @@ def stepToks (s : DState) (toks : List String) : DState × String :=
   | ["H", "clone", r, r2] => match s.getH r with
     | some reg => (s.setH r2 reg, "ok;-")
     | none => bad
+  | ["H", "clonefrom", src, dst] => match s.getH src, s.getH dst with
+    | some reg, some _ => (s.setH dst reg, "ok;-")      -- `clone_from` = assignment of a clone
+    | _, _ => bad
   | ["H", "reset", r] => match s.getH r with
     | some reg => (s.setH r { reg with h := reg.h.reset, absorbed := [] }, "ok;-")
     | none => bad
